@@ -1,0 +1,41 @@
+//go:build verif
+
+package rueidis
+
+import "sync/atomic"
+
+// VerifHookFn receives one event per instrumented point. It may block: a blocking hook is how the
+// verification harness holds a goroutine at a chosen point. obj identifies the object (pool, ring, pipe ...).
+type VerifHookFn func(point string, obj any, a, b int)
+
+var verifHook atomic.Pointer[VerifHookFn]
+
+// SetVerifHook installs (or, with nil, removes) the process-wide hook.
+func SetVerifHook(fn VerifHookFn) {
+	if fn == nil {
+		verifHook.Store(nil)
+		return
+	}
+	verifHook.Store(&fn)
+}
+
+func vhook(point string, obj any, a, b int) {
+	if fn := verifHook.Load(); fn != nil {
+		(*fn)(point, obj, a, b)
+	}
+}
+
+// vhookq reports a ring slot event: a = slot index, b = the slot's mark. It is called with the slot mutex held
+// except for "ring.put.bcast".
+func vhookq(point string, r *ring, n *node) {
+	if fn := verifHook.Load(); fn != nil {
+		idx := -1
+		for i := range r.store {
+			if &r.store[i] == n {
+				idx = i
+				break
+			}
+		}
+		(*fn)(point, r, idx, int(n.mark))
+	}
+}
